@@ -50,6 +50,18 @@ impl From<pest::error::Error<Rule>> for Error {
     }
 }
 
+impl Error {
+    fn custom(message: impl Into<String>, span: pest::Span<'_>) -> Self {
+        pest::error::Error::<Rule>::new_from_span(
+            pest::error::ErrorVariant::CustomError {
+                message: message.into(),
+            },
+            span,
+        )
+        .into()
+    }
+}
+
 impl From<pest::error::InputLocation> for Span {
     fn from(value: pest::error::InputLocation) -> Self {
         match value {
@@ -1106,7 +1118,12 @@ impl AstNode for MapConstructor {
 
 impl DataExpr {
     fn number_parse(pair: Pair<Rule>) -> Result<Self, Error> {
-        Ok(DataExpr::Number(pair.as_str().parse().unwrap()))
+        let value = pair
+            .as_str()
+            .parse()
+            .map_err(|_| Error::custom("number literal out of range", pair.as_span()))?;
+
+        Ok(DataExpr::Number(value))
     }
 
     fn bool_parse(pair: Pair<Rule>) -> Result<Self, Error> {
